@@ -63,7 +63,7 @@ def materialise(tree, root, rnd):
     rnd.shuffle(stems)
     stems += ["f%02d" % j for j in range(len(tree))]       # (large trees: more slots than hand-picked names)
     same_name = len(tree) <= 4 and rnd.random() < 0.3       # every file has the SAME name, each in a directory of its own
-    dirs = ["", "sub", "sub/deep", "other"]
+    dirs = ["", "sub", "sub/deep", "other", ".hidden", ".config/styles", "sub/.cache"]      # (dot-directories are directories)
     paths = {}
     for s, kind in enumerate(tree, start=1):
         if kind == "none":
@@ -72,6 +72,8 @@ def materialise(tree, root, rnd):
         stem = stems[s]
         if same_name:
             d, stem = dirs[(s - 1) % len(dirs)], stems[0]
+        elif rnd.random() < 0.12:
+            stem = "." + stem          # a dot-file is a file
         name = (stem + "_cm.css") if kind == "cm" else (stem + ".css")
         rel = os.path.join(d, name) if d else name
         full = os.path.join(root, rel)
@@ -112,6 +114,19 @@ def one_tree(job):
 
     try:
         paths = materialise(tree, root, rnd)
+        # a second NAME for one of the valid stylesheets (a hard link: two directory entries, one inode): two names are two
+        # stylesheets, each with its own output
+        if seed % 4 == 1:
+            cand = [s_ for s_, rel_ in sorted(paths.items()) if tree[s_ - 1] in VALID]
+            if cand:
+                s0 = cand[0]
+                rel2 = os.path.join(os.path.dirname(paths[s0]), "twin-of-" + os.path.basename(paths[s0]).lstrip("."))
+                try:
+                    os.link(os.path.join(root, paths[s0]), os.path.join(root, rel2))
+                    tree = tuple(tree) + (tree[s0 - 1],)
+                    paths[len(tree)] = rel2
+                except OSError:
+                    pass
         args = ["--mode", str(settings[0])] + (["--premium"] if settings[1] else []) + (["--default-bg", settings[2]] if settings[2] else [])
         # reference: each valid file alone, in a directory containing nothing else
         single = {}
